@@ -5,12 +5,13 @@
     FIDE Spec), TextIO/UciLine.v (UCI tokenizer and `position` command), TextIO/FenIx.v (readFEN with
     the C++'s index arithmetic), Chess/Fen.v (readFEN / toFEN, by the position agent); tied to
     lib/texellib/textio.cpp and app/texel/uciprotocol.cpp by the correspondence check (props/c17.py).
-    NOT covered by any theorem here: the PGN scanner / parser / writer (gametree.cpp) and the UCI
-    commands other than `position` -- tested only. *)
+    TextIO/PgnScan.v models the PGN tokenizer (PgnScanner).  NOT covered by any theorem here: the PGN
+    parser / game tree (gametree.cpp) and the UCI commands other than `position` -- tested only. *)
 From Coq Require Import ZArith NArith List Bool.
 From Texel Require Import Chess.Types Chess.Position Chess.Fen Chess.PositionInst Chess.Spec
   TextIO.MoveText TextIO.MoveTextP TextIO.UciLine TextIO.FenIx TextIO.UciProofs TextIO.ParseSweep
-  TextIO.MoveTextFacts TextIO.MoveTextProofs TextIO.MoveTextTheorems TextIO.FenIxProofs.
+  TextIO.MoveTextFacts TextIO.MoveTextProofs TextIO.MoveTextTheorems TextIO.FenIxProofs
+  TextIO.PgnScan TextIO.PgnScanProofs.
 Import ListNotations.
 Local Open Scope N_scope.
 
@@ -105,6 +106,29 @@ Theorem C17_roundtrip_accepted : forall p, accepted (abs p) = true ->
 Proof. exact (fun p H => conj (roundtrips_accepted p H) (short_injective_accepted p H)). Qed.
 Print Assumptions C17_roundtrip_accepted.
 
+(** PGN tokenizer (TextIO/PgnScan.v models PgnScanner::getTokenChar / nextToken: escape lines, the line
+    feed delivered once at end of input, one character of push-back, partial tokens dropped at END; tied
+    to the C++ token by token on generated, mutated and random bytes).  The tokenizer half of the PGN
+    round trip: printing ANY token list in the printer's range with ANY separators -- white space
+    anywhere, and NO separator wherever two tokens cannot merge (symbol|integer before symbol|integer,
+    NAG before a digit) -- and scanning the text gives back the token list.  The range: integers are
+    non-empty digit strings, symbols non-empty strings of non-blank non-terminator characters that are not
+    all digits, NAG numbers are digit strings, brace comments contain no right brace, rest-of-line comments
+    no line break, strings anything; no percent sign in the text (escape lines are not printed). *)
+Theorem C17_pgn_scan_roundtrip : forall l trail,
+  noPercent (printToks l trail) = true -> forallb isSpaceP trail = true -> wfStyle None l ->
+  scan (printToks l trail) = map (fun x => erase (snd x)) l.
+Proof. exact scan_print_style. Qed.
+Print Assumptions C17_pgn_scan_roundtrip.
+
+(** the same with the look-ahead condition stated on the text: after an integer / symbol comes a blank
+    or a terminator, after a NAG a non-digit (each [returnTokenChar] site of the scanner) *)
+Theorem C17_pgn_scan_lookahead : forall l trail,
+  noPercent (printToks l trail) = true -> forallb isSpaceP trail = true -> wfList l trail ->
+  scan (printToks l trail) = map (fun x => erase (snd x)) l.
+Proof. exact scan_print. Qed.
+Print Assumptions C17_pgn_scan_lookahead.
+
 (** * Statements not proved *)
 
 (** every position the FEN reader returns passes the acceptance test of the specification (the link
@@ -113,5 +137,7 @@ Print Assumptions C17_roundtrip_accepted.
 Definition C17_fen_accepted_statement : Prop :=
   forall s p, readFEN zk0 s = FenOk p -> accepted (abs p) = true.
 
-(** NOT modelled, hence no statement here: PGN scanner / parser / game tree (gametree.cpp) and the UCI
-    commands other than `position`; write -> parse -> compare and crash-freedom are tested only. *)
+(** NOT modelled, hence no formal statement: the PGN PARSER and game tree (Node::parsePgn, PgnReader::readPGN,
+    GameTree: the tree half of the PGN round trip, "parse (tokens of tree t) = t") and the UCI commands
+    other than `position`; write -> parse -> compare (tree equality in the harness, every adjacency
+    style of the tokens) and crash-freedom on arbitrary bytes are tested only. *)
